@@ -9,8 +9,10 @@ Property theorems only.  The tables `Generated.ParFootprintParent.decision / hel
 regenerated from srs.py / fdepsd.py on every run (harness/translate/c09_parent.py).
 
 * decision: `generated_decision_is_std` (the regenerated `_process_parallel` table is the one the
-  rules below are proved for), `auto_rule`, `yes_rule`, `no_rule`, `invalid_option_raises`,
-  `pool_size_bounds`, `pool_size_ignores_task_count`;
+  rules below are proved for), `process_parallel_auto_rule / _yes_rule / _no_rule` (the helper, used as
+  it is by fdepsd), `generated_pickle_guard_std` and, with the `peak` argument as an input, `auto_rule`,
+  `yes_rule`, `no_rule`, `unpicklable_peak_runs_serially`, `picklable_peak_decision_unchanged` (srs.srs),
+  `invalid_option_raises`, `pool_size_bounds`, `pool_size_ignores_task_count`;
 * tables: `generated_parent_ok` (every pool site passes `siteOk`), `generated_helpers_std`,
   `generated_serial_is_worker_loop` (the serial routine is `for j in range(LF): body(j)` over the
   index set of the pool's task list, with the argument tuple of the workers, in order);
@@ -36,7 +38,7 @@ theorem generated_helpers_std : ParFootprintParent.helpers = stdHelpers := by de
 /-- `parallel='auto'`: the pool is used iff there is more than one frequency AND the signal block
 has more than 50000 elements AND no histories are requested AND the machine has more than one CPU
 AND the platform is not Windows; otherwise serial with a worker count of 1. -/
-theorem auto_rule (i : DecIn) :
+theorem process_parallel_auto_rule (i : DecIn) :
     processParallel ParFootprintParent.decision "auto" i =
       some (if 1 < i.LF ∧ 50000 < i.size ∧ i.getresp = false ∧ 1 < i.cpu ∧ i.win = false
             then ("yes", poolSize i.maxcpu i.cpu) else ("no", 1)) := by
@@ -62,7 +64,7 @@ theorem auto_rule (i : DecIn) :
 /-- `parallel='yes'`: always the pool; the number of processes is `maxcpu` when that is a positive
 number below the CPU count, else 4/5 of the CPU count (rounded down) on machines with more than
 four CPUs, else the CPU count. -/
-theorem yes_rule (i : DecIn) :
+theorem process_parallel_yes_rule (i : DecIn) :
     processParallel ParFootprintParent.decision "yes" i = some ("yes", poolSize i.maxcpu i.cpu) := by
   rw [generated_decision_is_std]
   have hc := capChain_std i
@@ -71,12 +73,71 @@ theorem yes_rule (i : DecIn) :
   simp [hmodes, hc, show ¬ ("yes" = "no") by decide, show ¬ ("yes" = "auto") by decide]
 
 /-- `parallel='no'`: serial, worker count 1, whatever the other arguments -/
-theorem no_rule (i : DecIn) :
+theorem process_parallel_no_rule (i : DecIn) :
     processParallel ParFootprintParent.decision "no" i = some ("no", 1) := by
   rw [generated_decision_is_std]
   unfold processParallel
   simp [show ¬ ("no" = "auto") by decide, show ¬ ("no" = "yes") by decide, stdDecision,
     CapVal.eval]
+
+/-- the regenerated override of srs.srs is the repaired one (F53); fdepsd, which has no `peak`
+option, has none -/
+theorem generated_pickle_guard_std :
+    ParFootprintParent.guard_srs = stdGuard ∧ ParFootprintParent.guard_fdepsd = noGuard := by decide
+
+/-- srs.srs, `parallel='auto'`, with the `peak` argument as an input: the pool is used iff LF > 1 ∧
+size > 50000 ∧ ¬getresp ∧ cpu count > 1 ∧ not Windows ∧ `peak` is not an unpicklable function. -/
+theorem auto_rule (i : DecIn) (peak : PeakArg) :
+    routineDecision ParFootprintParent.decision ParFootprintParent.guard_srs "auto" i peak =
+      some (if 1 < i.LF ∧ 50000 < i.size ∧ i.getresp = false ∧ 1 < i.cpu ∧ i.win = false
+            then (if peak = PeakArg.unpicklable then "no" else "yes", poolSize i.maxcpu i.cpu)
+            else ("no", 1)) := by
+  unfold routineDecision
+  rw [process_parallel_auto_rule, generated_pickle_guard_std.1]
+  by_cases h : 1 < i.LF ∧ 50000 < i.size ∧ i.getresp = false ∧ 1 < i.cpu ∧ i.win = false
+  · cases peak <;> simp [h, guardedMode, stdGuard]
+  · simp [h, guardedMode, stdGuard]
+
+/-- srs.srs, `parallel='yes'`: the pool unless `peak` is a function that cannot be pickled — then the
+serial loop (which simply calls it) -/
+theorem yes_rule (i : DecIn) (peak : PeakArg) :
+    routineDecision ParFootprintParent.decision ParFootprintParent.guard_srs "yes" i peak =
+      some (if peak = PeakArg.unpicklable then "no" else "yes", poolSize i.maxcpu i.cpu) := by
+  unfold routineDecision
+  rw [process_parallel_yes_rule, generated_pickle_guard_std.1]
+  cases peak <;> simp [guardedMode, stdGuard]
+
+theorem no_rule (i : DecIn) (peak : PeakArg) :
+    routineDecision ParFootprintParent.decision ParFootprintParent.guard_srs "no" i peak = some ("no", 1) := by
+  unfold routineDecision
+  rw [process_parallel_no_rule, generated_pickle_guard_std.1]
+  cases peak <;> simp [guardedMode, stdGuard]
+
+/-- whatever `parallel` says, an unpicklable `peak` never reaches the pool … -/
+theorem unpicklable_peak_runs_serially (mode : String) (i : DecIn) (r : String × Nat)
+    (h : routineDecision ParFootprintParent.decision ParFootprintParent.guard_srs mode i
+      PeakArg.unpicklable = some r) : r.1 ≠ "yes" := by
+  unfold routineDecision at h
+  rw [generated_pickle_guard_std.1] at h
+  cases hp : processParallel ParFootprintParent.decision mode i with
+  | none => simp [hp] at h
+  | some q =>
+      simp only [hp, Option.map_some, Option.some.injEq] at h
+      rw [← h]
+      by_cases hq : q.1 = "yes" <;> simp [guardedMode, stdGuard, hq]
+
+/-- … while a string or a picklable function (a module-level one) leaves the decision of
+`_process_parallel` untouched; so does fdepsd for every input -/
+theorem picklable_peak_decision_unchanged (mode : String) (i : DecIn) (peak : PeakArg)
+    (h : peak ≠ PeakArg.unpicklable) :
+    routineDecision ParFootprintParent.decision ParFootprintParent.guard_srs mode i peak =
+      processParallel ParFootprintParent.decision mode i ∧
+    routineDecision ParFootprintParent.decision ParFootprintParent.guard_fdepsd mode i peak =
+      processParallel ParFootprintParent.decision mode i := by
+  unfold routineDecision
+  rw [generated_pickle_guard_std.1, generated_pickle_guard_std.2]
+  constructor <;> cases hp : processParallel ParFootprintParent.decision mode i <;>
+    cases peak <;> simp_all [guardedMode, stdGuard, noGuard]
 
 /-- any other value of `parallel` raises -/
 theorem invalid_option_raises (mode : String) (i : DecIn)
@@ -121,7 +182,7 @@ is created even for fewer frequencies (the idle ones get no task) -/
 theorem pool_size_ignores_task_count (i : DecIn) (LF' : Nat) :
     processParallel ParFootprintParent.decision "yes" { i with LF := LF' } =
       processParallel ParFootprintParent.decision "yes" i := by
-  rw [yes_rule, yes_rule]
+  rw [process_parallel_yes_rule, process_parallel_yes_rule]
 
 /-! ### the regenerated pool sites -/
 
@@ -154,12 +215,13 @@ theorem generated_serial_is_worker_loop :
         fp.serialSame = true) := by
   decide
 
-/-- Cause of the finding `parallel-path-raises:srs:peak-callable-not-picklable`: at both srs sites the
+/-- Cause of the (repaired, F53) finding `parallel-path-raises:srs:peak-callable-not-picklable` and the
+reason the guard `generated_pickle_guard_std` is needed: at both srs sites the
 peak function (`methfunc`) and the coefficient function travel to the workers INSIDE the task tuple,
 which `multiprocessing` pickles for every task — a `peak` function that cannot be pickled (a lambda)
-therefore makes the parallel path raise where the serial loop simply calls it.  The theorems below
-take the peak function as a mathematical function `P`; that it survives the hand-over is the stated
-assumption "a callable `peak` handed to the parallel path is picklable". -/
+would make the parallel path raise where the serial loop simply calls it; the guard sends it to the
+serial loop (`unpicklable_peak_runs_serially`).  The theorems below take the peak function as a
+mathematical function `P`. -/
 theorem generated_peak_travels_in_task_tuple :
     ∀ s ∈ ParFootprintParent.sites, s.routine = "srs.srs" →
       "methfunc" ∈ s.parArgs ∧ "methfunc" ∈ s.params ∧ s.initializer ∈ ["_mk_par_globals", "_mk_par_globals_ic"] ∧
@@ -472,6 +534,16 @@ example : processParallel ParFootprintParent.decision "yes" ⟨5, 100, some 14, 
     processParallel ParFootprintParent.decision "auto" ⟨5, 50001, some 14, false, 16, false⟩ = some ("yes", 14) ∧
     processParallel ParFootprintParent.decision "auto" ⟨5, 50001, some 14, true, 16, false⟩ = some ("no", 1) ∧
     processParallel ParFootprintParent.decision "maybe" ⟨5, 50001, some 14, true, 16, false⟩ = none := by
+  decide
+
+/-- the guard: a lambda goes serial under 'yes' and under 'auto' on a big block, a module-level
+function still goes parallel; without the guard (fdepsd's table) nothing changes -/
+example :
+    routineDecision ParFootprintParent.decision ParFootprintParent.guard_srs "yes" ⟨5, 100, some 2, false, 16, false⟩ .unpicklable = some ("no", 2) ∧
+    routineDecision ParFootprintParent.decision ParFootprintParent.guard_srs "yes" ⟨5, 100, some 2, false, 16, false⟩ .picklable = some ("yes", 2) ∧
+    routineDecision ParFootprintParent.decision ParFootprintParent.guard_srs "auto" ⟨5, 50001, some 2, false, 16, false⟩ .unpicklable = some ("no", 2) ∧
+    routineDecision ParFootprintParent.decision ParFootprintParent.guard_srs "auto" ⟨5, 50001, some 2, false, 16, false⟩ .name = some ("yes", 2) ∧
+    routineDecision ParFootprintParent.decision noGuard "yes" ⟨5, 100, some 2, false, 16, false⟩ .unpicklable = some ("yes", 2) := by
   decide
 
 /-- `slabCovered` rejects a footprint that leaves one of the three `ASV_` rows unwritten, and one
